@@ -242,11 +242,11 @@ fn gs1_admin(both: bool) {
     let addr = any_addr_v4();
     if both {
         world().push_data(
-            b"\\hostname\\N\\mapname\\M\\gametype\\d\\gamever\\1\\maxplayers\\0\\AdminName\\A\\admin\\r\\final\\\\queryid\\7.1".to_vec(),
+            b"\\hostname\\N\\mapname\\M\\gametype\\d\\gamever\\1\\maxplayers\\0\\password\\0\\AdminName\\A\\admin\\r\\final\\\\queryid\\7.1".to_vec(),
         );
     } else {
         world().push_data(
-            b"\\hostname\\N\\mapname\\M\\gametype\\d\\gamever\\1\\maxplayers\\0\\admin\\r\\final\\\\queryid\\7.1".to_vec(),
+            b"\\hostname\\N\\mapname\\M\\gametype\\d\\gamever\\1\\maxplayers\\0\\password\\0\\admin\\r\\final\\\\queryid\\7.1".to_vec(),
         );
     }
     let r = gamespy::one::query(&addr, None);
